@@ -47,13 +47,14 @@ class HarnessError(Exception):
 
 class Result(object):
     """What a driver returns for one case."""
-    __slots__ = ("problems", "nontrivial", "labels", "excluded")
+    __slots__ = ("problems", "nontrivial", "labels", "excluded", "extra_evals")
 
     def __init__(self, nontrivial=False, labels=()):
         self.problems = []          # list of (tag, detail)
         self.nontrivial = nontrivial
         self.labels = list(labels)
         self.excluded = []          # tags of ambiguity classes excluded by construction
+        self.extra_evals = 0        # additional executions of the real code done inside this case
 
     def bad(self, tag, detail=""):
         self.problems.append((tag, str(detail)[:2000]))
@@ -151,6 +152,7 @@ class Ctx(object):
                 driver, canon(case)[:1500], traceback.format_exc()))
         if not isinstance(res, Result):
             raise HarnessError("driver %s returned %r" % (driver, res))
+        self.evaluations += res.extra_evals
         for lab in res.labels:
             self.classes[lab] += 1
         for ex in res.excluded:
